@@ -367,7 +367,7 @@ func judgeC10Reuse(c c10Case, under fsutil.FS) (string, string) {
 	return "", ""
 }
 
-func judgeC10(c c10Case) (string, string) {
+func judgeC10Raw(c c10Case) (string, string) {
 	var under fsutil.FS = memfs.New(c.Tree)
 	if c.Disk {
 		dir := scratch.Dir("filt")
@@ -798,4 +798,14 @@ func newFilterFSReusedOpt(under fsutil.FS, o *fsutil.FilterOpt) (fsutil.FS, erro
 	opt.ExcludePatterns = []string{"**"}
 	opt.Map = func(string, *types.Stat) fsutil.MapResult { return fsutil.MapResultExclude }
 	return v, nil
+}
+
+// judgeC10 is judgeC10Raw with a panic of the code under test turned into a verdict (never a crash of the check).
+func judgeC10(c c10Case) (k, m string) {
+	defer func() {
+		if r := recover(); r != nil {
+			k, m = "panic", fmt.Sprintf("the code under test panicked: %v", r)
+		}
+	}()
+	return judgeC10Raw(c)
 }
